@@ -21,7 +21,9 @@ def leaves(v):
 
 
 class Ctx(object):
-    def __init__(self, prop, tier, backend, seed):
+    def __init__(self, prop, tier, backend, seed, shard=0, nshards=1):
+        self.shard = shard
+        self.nshards = nshards
         self.prop = prop
         self.tier = tier
         self.backend = backend
@@ -30,7 +32,7 @@ class Ctx(object):
         self.ps, self.mods = backend_mod.load(backend)
         self.impl = adapters.Impl(self.ps, self.mods, backend)
         self.space = inputs.Space(tier, seed)
-        self.rng = random.Random(seed * 1000003 + (1 if self.cy else 0))
+        self.rng = random.Random(seed * 1000003 + (1 if self.cy else 0) + 7919 * shard)
         self.corr_evals = 0
         self.oracle_evals = 0
         self.mismatches = []
@@ -42,6 +44,14 @@ class Ctx(object):
         self.notes = []
         self.max_report = 40
 
+    # -- sharding helpers: every worker builds the same deterministic input
+    #    lists and takes its own slice
+    def part(self, l):
+        return l[self.shard::self.nshards]
+
+    def n(self, n):
+        return max(1, (n + self.nshards - 1) // self.nshards)
+
     # -- implementation calls
     def call(self, rid, args):
         return core.call_impl(self.impl.call, rid, args)
@@ -50,7 +60,11 @@ class Ctx(object):
         return self.backend in adapters.ROUTINES[rid][2]
 
     # -- correspondence: model routine vs implementation
-    def corr(self, cases, nontrivial=None, tol=core.TOL):
+    def corr(self, cases, nontrivial=None, tol=core.TOL, functional=False):
+        """functional=True: [model routine = specification] is a theorem of this
+        property, so an input on which model and implementation differ is a
+        failing input of the property itself"""
+        self._functional = functional
         cases = [c for c in cases if self.supports(c[0])]
         if not cases:
             return
@@ -63,7 +77,7 @@ class Ctx(object):
             self.per_routine[name] = self.per_routine.get(name, 0) + 1
             nt = nontrivial(rid, args) if nontrivial else leaves(args) >= 6
             if nt:
-                self.distinct.add(hash((rid, core.enc(args))))
+                self.distinct.add(hash((rid, core.enc(args))) & 0xffffffffffff)
             if len(self.samples) < 3 and nt and self.rng.random() < 0.01:
                 self.samples.append({"routine": name, "backend": self.backend, "args": core.enc(args),
                                      "model": core.enc(_enc_model(mv))})
@@ -76,7 +90,9 @@ class Ctx(object):
             self.mismatches.append({
                 "kind": "correspondence", "routine": adapters.ROUTINES[rid][0], "rid": rid,
                 "backend": self.backend, "args": core.enc(args),
-                "model": core.enc(_enc_model(mv)), "impl": repr(iv)[:400], "diff": d})
+                "model": core.enc(_enc_model(mv)), "impl": repr(iv)[:400], "diff": d,
+                "functional": bool(getattr(self, "_functional", False)),
+                "shard": self.shard, "nshards": self.nshards})
         else:
             self.notes.append("more correspondence mismatches suppressed")
 
@@ -85,13 +101,14 @@ class Ctx(object):
         self.oracle_evals += n
 
     def nontrivial(self, key):
-        self.distinct.add(hash(key))
+        self.distinct.add(hash(key) & 0xffffffffffff)
 
     def violate(self, what, call, args, expected=None, got=None, **extra):
         if len(self.violations) < self.max_report:
             v = {"kind": "input", "what": what, "call": call, "backend": self.backend,
-                 "args": args if isinstance(args, str) else core.enc(args),
-                 "expected": _short(expected), "got": _short(got)}
+                 "args": args if isinstance(args, str) else _safe_enc(args),
+                 "expected": _short(expected), "got": _short(got),
+                 "shard": self.shard, "nshards": self.nshards}
             v.update(extra)
             self.violations.append(v)
 
@@ -101,6 +118,20 @@ class Ctx(object):
 
     def bump(self, k, n=1):
         self.hist[k] = self.hist.get(k, 0) + n
+
+
+def _safe_enc(args):
+    try:
+        return core.enc(args)
+    except TypeError:
+        def conv(x):
+            if isinstance(x, (list, tuple)):
+                return [conv(y) for y in x]
+            return x if isinstance(x, (int, bool, type(None))) or hasattr(x, "numerator") else str(x)
+        try:
+            return "repr:" + repr(conv(args))
+        except Exception:
+            return "repr:" + repr(args)
 
 
 def _short(v):
@@ -121,12 +152,14 @@ def _enc_model(v):
 
 def main():
     prop, tier, backend, seed, out = sys.argv[1], sys.argv[2], sys.argv[3], int(sys.argv[4]), sys.argv[5]
+    shard = int(sys.argv[6]) if len(sys.argv) > 6 else 0
+    nshards = int(sys.argv[7]) if len(sys.argv) > 7 else 1
     import props
     t0 = time.time()
-    ctx = Ctx(prop, tier, backend, seed)
+    ctx = Ctx(prop, tier, backend, seed, shard, nshards)
     replay = None
-    if len(sys.argv) > 6:
-        with open(sys.argv[6]) as f:
+    if len(sys.argv) > 8:
+        with open(sys.argv[8]) as f:
             replay = json.load(f)
     if replay is not None:
         props.replay(ctx, replay)
@@ -136,7 +169,8 @@ def main():
         "prop": prop, "tier": tier, "backend": backend, "seed": seed,
         "corr_evals": ctx.corr_evals, "oracle_evals": ctx.oracle_evals,
         "mismatches": ctx.mismatches, "violations": ctx.violations,
-        "distinct_nontrivial": len(ctx.distinct), "samples": ctx.samples,
+        "distinct_nontrivial": len(ctx.distinct), "distinct_keys": sorted(ctx.distinct), "shard": shard,
+        "samples": ctx.samples,
         "hist": ctx.hist, "per_routine": ctx.per_routine, "notes": sorted(set(ctx.notes)),
         "wall_s": time.time() - t0,
     }
